@@ -161,16 +161,35 @@ class BNHistory:
                     getattr(L, ev)()
                     training = ev == "train"
                     continue
+                from synapgrad.tensor import Tensor
+                if ev == "bw":
+                    # backward through the last forward: running statistics change exactly once per FORWARD, so never here
+                    snaps = None if not self.track else (L.running_mean.data, L.running_mean.data.copy(), L.running_var.data, L.running_var.data.copy())
+                    info = {"event_index": ei, "training": training, "forward_number": nfw}
+                    try:
+                        last_out.backward(Tensor(symarr("g%d" % ei, last_out.shape)))
+                    except Exception as e:
+                        fail = ("backward_completes", "backward at event %d raised %s: %s" % (ei, type(e).__name__, e), info)
+                        break
+                    if self.track:
+                        a0, s0, a1, s1 = snaps
+                        same = L.running_mean.data is a0 and L.running_var.data is a1 and all(p is q for p, q in zip(a0.ravel(), s0.ravel())) and \
+                            all(p is q for p, q in zip(a1.ravel(), s1.ravel())) and getattr(L, "num_batches_tracked", None) == k
+                        if not same:
+                            fail = ("backward_leaves_running_statistics_untouched", "a backward call through a %s-mode forward changed the running statistics" %
+                                    ("training" if training else "eval"), info)
+                            break
+                        bump("syntactic")
+                    continue
                 x = arr("x%d" % nfw, self.shape) if ev == "fw" else last_x
                 nfw += 1 if ev == "fw" else 0
                 last_x = x
-                from synapgrad.tensor import Tensor
                 rm_obj = None if not self.track else L.running_mean.data
                 rv_obj = None if not self.track else L.running_var.data
                 rm_snap = None if rm_obj is None else rm_obj.copy()
                 rv_snap = None if rv_obj is None else rv_obj.copy()
                 try:
-                    out = L(Tensor(x.copy()))
+                    out = last_out = L(Tensor(x.copy(), requires_grad=True))
                 except Exception as e:
                     fail = ("forward_completes", "forward %d raised %s: %s" % (ei, type(e).__name__, e), {"event_index": ei, "training": training})
                     break
@@ -266,10 +285,16 @@ class BNHistory:
                         getattr(L, ev)()
                         training = ev == "train"
                         continue
+                    if ev == "bw":
+                        before = None if not self.track else (L.running_mean.data.copy(), L.running_var.data.copy())
+                        out.backward(Tensor(np.ones(out.shape)))
+                        if self.track and not (np.array_equal(before[0], L.running_mean.data) and np.array_equal(before[1], L.running_var.data)):
+                            bad.append(("running statistics changed by backward", ei))
+                        continue
                     x = arr("x%d" % nfw, self.shape) if ev == "fw" else last_x
                     nfw += 1 if ev == "fw" else 0
                     last_x = x
-                    out = L(Tensor(x.copy()))
+                    out = L(Tensor(x.copy(), requires_grad=True))
                     if training and self.track:
                         k += 1
                         f = mom if mom is not None else 1.0 / k
@@ -361,7 +386,8 @@ class DropoutCase:
 
 def cases(tier, seed):
     cs = [TargetCase(t) for t in bn_targets()]
-    hist = [("fw",), ("fw", "fw"), ("fw", "eval", "fw", "again"), ("eval", "fw", "again", "train", "fw"), ("fw", "eval", "fw", "train", "fw"), ("eval", "fw", "train", "fw", "eval", "fw")]
+    hist = [("fw",), ("fw", "fw"), ("fw", "eval", "fw", "again"), ("eval", "fw", "again", "train", "fw"), ("fw", "eval", "fw", "train", "fw"), ("eval", "fw", "train", "fw", "eval", "fw"),
+            ("eval", "fw", "bw", "again", "bw", "again"), ("fw", "bw", "eval", "fw", "bw", "again"), ("fw", "bw", "fw", "bw")]
     shapes = {"BatchNorm1d": [(3, 2), (2, 1, 2)], "BatchNorm2d": [(2, 1, 1, 2)]}
     for cls, shs in shapes.items():
         for shape in shs:
@@ -369,7 +395,7 @@ def cases(tier, seed):
                 for mom in ("symbolic", None, 0.25):
                     if mom == 0.25 and not (affine and track):
                         continue
-                    for h in (hist if (affine and track) or tier == "thorough" else hist[2:4]):
+                    for h in (hist if (affine and track) or tier == "thorough" else hist[2:4] + hist[6:7]):
                         cs.append(BNHistory(cls, shape, affine, track, mom, h))
     for p in (0, 0.1, 0.5, 0.9, 1, 1.0):
         for training in (True, False):
